@@ -727,7 +727,7 @@ class HydrodynamicsTemplateModel:
             solShock = self.integratePlasma(boostVelocity(vw, vp), vw, wp)
             # Sample the solution densely up to the shock front before using
             # Simpson's rule (the adaptive integrator returns only a few points)
-            vPlasma = np.linspace(solShock.t[0], solShock.t[-1], 1001)
+            vPlasma = np.geomspace(solShock.t[0], solShock.t[-1], 1001)
             xi, enthalpy = solShock.sol(vPlasma)
 
             # Integrate the solution to get kappa
